@@ -252,6 +252,11 @@ fn exec_read(
     let Some(path) = fs.open_handles.get(&fd).cloned() else {
         return -EBADF;
     };
+    // The descriptor must have been opened for reading: read(2) on a
+    // write-only descriptor fails with EBADF (the sync shim refuses it too).
+    if fs.unreadable_fds.contains(&fd) {
+        return -EBADF;
+    }
 
     // O_DIRECT: enforce ptr/offset/len alignment, mirroring
     // shim::std::fs::File::read_at_internal. Real io_uring on a
@@ -313,6 +318,10 @@ fn exec_write(
     let Some(path) = fs.open_handles.get(&fd).cloned() else {
         return -EBADF;
     };
+    // The descriptor must have been opened for writing.
+    if fs.unwritable_fds.contains(&fd) {
+        return -EBADF;
+    }
 
     // O_DIRECT alignment, see exec_read for the rationale.
     if fs.direct_io_fds.contains(&fd) && !direct_io_aligned(fs, ptr as usize, offset, len) {
